@@ -268,6 +268,9 @@ func (h *Hist) genTx() *histTx {
 			routes := []ammtypes.SwapAmountInRoute{{PoolId: p.Id, TokenOutDenom: dout}}
 			if r.Intn(4) == 0 { // two hops through another pool back to a third denom
 				p2 := h.pool(func(q PoolRef) bool { return q.Id != p.Id && contains(q.Denoms, dout) })
+				if r.Intn(3) == 0 {
+					p2 = p // a route that goes through the same pool twice (A -> B -> A): route validation allows it
+				}
 				if p2.Id != 0 {
 					routes = append(routes, ammtypes.SwapAmountInRoute{PoolId: p2.Id, TokenOutDenom: other(p2, dout)})
 				}
@@ -279,6 +282,9 @@ func (h *Hist) genTx() *histTx {
 			out := coin(dout, a)
 			if r.Intn(4) == 0 {
 				p0 := h.pool(func(q PoolRef) bool { return q.Id != p.Id && contains(q.Denoms, din) })
+				if r.Intn(3) == 0 {
+					p0 = p // the same pool twice
+				}
 				if p0.Id != 0 {
 					routes = append([]ammtypes.SwapAmountOutRoute{{PoolId: p0.Id, TokenInDenom: other(p0, din)}}, routes...)
 				}
